@@ -216,5 +216,14 @@ def task_monopole(ctx):
     ctx.assume_note("(ss|ss) -> ev/sqrt(r^2 + (rho0A+rho0B)^2) is proved in C06 (local_frame); with it the monopole parts of core-core, core-electron and electron-electron terms cancel for neutral spherical populations")
 
 
-TASKS_QUICK = ["cutoff", "default_cutoff", "monopole"]
+def task_hcore_far_pairs(ctx):
+    """Long-range cancellation needs all four Coulomb terms of a far pair: the core Hamiltonian's diagonal block of EVERY atom
+    contains the attraction to the core of every listed partner, also beyond the overlap cutoff (40 bohr), where only the
+    resonance (overlap) block is dropped.  Contract shared with C06's hcore_assembly (every near/far pattern of a four-pair batch)."""
+    from contracts.C06_nddo_model import task_hcore_assembly
+
+    task_hcore_assembly(ctx)
+
+
+TASKS_QUICK = ["cutoff", "default_cutoff", "monopole", "hcore_far_pairs"]
 TASKS_THOROUGH = TASKS_QUICK
